@@ -51,6 +51,14 @@ OPTS = [('format', 'pandas-records'), ('format', 'pandas-split'), ('charset', 'u
 QS = [None, '1', '1.0', '0.9', '0.5', '0.50', '0.1', '0', '0.001']
 
 
+#: string cells the csv pair cannot carry (known finding): pandas.read_csv reads them as missing values
+NA_LIKE = ['', 'NA', 'null', 'nan', 'None', 'N/A']
+K_CSV_NA = 'csv-na-like-string-read-as-missing'
+K_CSV_BLANK = 'csv-single-column-blank-cell-row-dropped'
+#: string cells every working pair must carry: blanks at either end, separators, quotes, comment marks, non-ascii
+STRINGS = ['x', 'yy', 'z z', 'w', ' lead', 'trail ', '  two', ' ', 'a,b', 'q"uote', "it's", 'é', '#c', 'x;y', '-', 'tab\there']
+
+
 def shards(tier):
     return 2 if tier == 'quick' else 12
 
@@ -223,9 +231,26 @@ def check_codec(ctx, layout, dsl, encoder, decoder, names, rows, named=True):
         back = [[v.item() if hasattr(v, 'item') else v for v in r] for r in entry.data.to_rows()]
         backnames = [f.name for f in entry.schema]
     except Exception as err:  # pylint: disable=broad-except
+        if encoder.encoding.kind == 'text/csv' and len(names) == 1 and all(isinstance(r[0], str) and r[0] and not r[0].strip() for r in rows):
+            ctx.violation(K_CSV_BLANK, f'{encoder.encoding.header}: single-column table {rows} of blank cells only decodes to nothing: '
+                          f'{err!r}', {'encoding': encoder.encoding.header, 'names': names, 'rows': rows})
+            return
         ctx.violation('codec-raises', f'{encoder.encoding.header} round trip of {names} {rows} raised {err!r}',
                       {'encoding': encoder.encoding.header, 'names': names, 'rows': rows})
         return
+    if back != rows and encoder.encoding.kind == 'text/csv' and (not named or backnames == list(names)):
+        # the two known lossy spots of the CSV text form, alone or together: missing-value markers and blank single-cell lines
+        kept = [r for r in rows if not (len(names) == 1 and isinstance(r[0], str) and r[0] and not r[0].strip())]  # '' is written quoted
+        if len(back) == len(kept) and all(len(b) == len(r) and all(x == y or (y in NA_LIKE and isinstance(x, float) and x != x)
+                                                                   for x, y in zip(b, r)) for b, r in zip(back, kept)):
+            if len(kept) != len(rows):
+                ctx.violation(K_CSV_BLANK, f'{encoder.encoding.header}: single-column table {rows} came back without its blank-cell '
+                              f'rows: {back}', {'encoding': encoder.encoding.header, 'names': names, 'rows': rows})
+            if any(y in NA_LIKE for r in kept for y in r):
+                ctx.violation(K_CSV_NA, f'{encoder.encoding.header}: string cells {sorted({y for r in rows for y in r if y in NA_LIKE})} '
+                              f'of {rows} came back as missing values {back}',
+                              {'encoding': encoder.encoding.header, 'names': names, 'rows': rows})
+            return
     if back != rows or (named and backnames != list(names)):
         ctx.violation('codec-roundtrip', f'{encoder.encoding.header}: {names} {rows} -> {backnames} {back}',
                       {'encoding': encoder.encoding.header, 'names': names, 'rows': rows})
@@ -301,10 +326,13 @@ def run(ctx):
         if must not in labels:
             ctx.violation('codec-pair-broken', f'codec pair {must} no longer round-trips the probe table', {'pair': must})
     for encoder, decoder, label in usable:
+        if encoder.encoding.kind == 'text/csv' and ctx.shard == 0:  # the known finding, every run
+            check_codec(ctx, layout, dsl, encoder, decoder, ['a', 'b'], [['NA', 1], ['k', 2]], named='data only' not in label)
+            check_codec(ctx, layout, dsl, encoder, decoder, ['a'], [['x'], [' '], ['y']], named='data only' not in label)
         for _ in range(ctx.pick(12, 60)):
             ncols = rng.randint(1, 4)
             names = rng.sample(['a', 'b', 'c', 'd', 'e'], ncols)
-            makers = [rng.choice([lambda: rng.randint(-50, 50), lambda: rng.choice(['x', 'yy', 'z z', 'w']),
+            makers = [rng.choice([lambda: rng.randint(-50, 50), lambda: rng.choice(STRINGS) if rng.random() < 0.93 else rng.choice(NA_LIKE),
                                   lambda: rng.randint(-99, 99) + 0.5]) for _ in range(ncols)]
             rows = [[m() for m in makers] for _ in range(rng.randint(1, 5))]
             check_codec(ctx, layout, dsl, encoder, decoder, names, rows, named='data only' not in label)
